@@ -296,6 +296,11 @@ _CONST_SITES = [
     "query ($a: Int = %v) { f }", "query ($a: Int %s) { f }", "query ($a: Int) %s { f }", "{ f %s }", "{ ...F %s }", "{ ... %s { f } }", "fragment F on T %s { f }",
 ]
 _CONST_VALUES = ["1", "$v", "[$v]", "{k: $v}", "[[{k: [$v]}]]"]
+# a query (keyword form, nothing that forces the keyword) right after a type-system definition without a body: the printer must not fall back to the
+# short form there
+HAND_DOCUMENTS += ["%s query { a }" % d for d in ("type A", "input I", "extend schema @d", "enum E", "extend enum E @d", "interface I", "scalar S", "union U",
+                                                   "type A implements B", "extend type A @d", "directive @d on FIELD", "schema { query: Q }")] + \
+                  ["type A { x: Int } query { a } type B query { b } fragment F on A { x } query { c }", "query { a } type A", "type A query { a: b } query { c }"]
 # names that are proper substrings / prefixes of the reserved words (valid wherever the reserved word is not)
 HAND_DOCUMENTS += ["{ ...%s } fragment %s on %s { %s }" % (n, n, n, n) for n in ("o", "n", "onn", "oon", "On")] + \
                   ["enum E { %s }" % n for n in ("t", "tru", "truee", "f", "nul", "nulll", "True", "NULL", "u", "e")] + \
@@ -524,6 +529,8 @@ def roundtrip_corpus(tier, seed):
     for efv in (False, True):
         for entry, toks in GD.corpus(tier, seed, efv):
             add(entry, GD.render(toks))
+    for t in HAND_DOCUMENTS:
+        add("document", t)
     payloads = list(strings(PAYLOAD_ALPHABET, 3 if tier == "thorough" else 2)) + \
         ["a\\", " a\\", 'a"', ' a"', '"""', 'a"""b', "\\\"\"\"", " \n a\n  b", "a\n\n b\n", "  a\n b", "\ta", "a\\\n", " \\", "\"", "\n", " "]
     # line-structured payloads: every composition of 2..3 lines (empty, whitespace-only of several widths, indented, trailing blank) -
